@@ -177,7 +177,7 @@ def run(ctx):
         "panic values are abstracted in the model (a task returns or panics); the harness varies the value over ten kinds "
         "and attributes handler calls to tasks by goroutine id, independently of the value and of the errs package",
         "not judged, only transcribed (coverage.observations): a task calling runtime.Goexit, tasks submitting to their own "
-        "queue, Depth(math.MaxInt); Workers < 1 (default pool) is run but the bound running <= Workers is then not judged",
+        "queue; Workers < 1 (default pool) is run but the bound running <= Workers is then not judged",
     ]
     ctx.assumptions += [
         "running tasks eventually finish and the Go scheduler does not stop while a goroutine can move (the liveness "
@@ -260,8 +260,7 @@ def _oracle_parallel(ctx, area, n, label, shards):
 
 
 def _observations(ctx):
-    """situations outside the domain of the property (runtime.Goexit in a task, tasks that Submit to their own queue,
-    Depth(math.MaxInt)): transcribed into the evidence, never judged"""
+    """situations outside the domain of the property (runtime.Goexit in a task, tasks that Submit to their own queue): transcribed into the evidence, never judged"""
     if ctx.replay or "harness" not in ctx.harness_bin:
         return
     from concurrent.futures import ThreadPoolExecutor
